@@ -2,3 +2,4 @@
 from . import clients  # noqa: F401
 from . import determinism  # noqa: F401
 from . import results  # noqa: F401
+from . import package  # noqa: F401
